@@ -930,3 +930,25 @@ def publish_failure_as_status(fn_node):
                 out.append((h, f"publish-failure-as-status:{A.unparse(ren[0].func)}", f"`except {', '.join(names)}` around `{A.unparse(ren[0])[:50]}` neither re-raises nor looks at the error: "
                             f"a failed rename (the step that puts the new state in place) is reduced to a log line / return value, and what follows treats the new state as present"))
     return out
+
+
+_QUANTITY_OR = _re_mod.compile(r"^(mode|mtime|size|uid|gid|perms|expected_size|inode|dev|revision|rev)$")
+
+
+def quantity_or_default(fn_node):
+    """``fsobj.mtime or time.time()`` / ``self.revision or None`` as a value: `or` replaces every *false* left operand, so a
+    legitimate zero (epoch mtime, mode 0000, uid 0, an explicit revision ``-r0``) is silently swapped for the fallback — the
+    fallback was meant for "not given" (``None``) only."""
+    out = []
+    for n in ast.walk(fn_node):
+        if not (isinstance(n, ast.BoolOp) and isinstance(n.op, ast.Or) and len(n.values) >= 2):
+            continue
+        par = getattr(n, "_parent", None)
+        if isinstance(par, (ast.If, ast.While, ast.BoolOp, ast.UnaryOp, ast.Assert)) or (isinstance(par, ast.IfExp) and par.test is n) or isinstance(par, ast.comprehension):
+            continue  # a truth test, not a value
+        l = n.values[0]
+        nm = l.attr if isinstance(l, ast.Attribute) else (l.id if isinstance(l, ast.Name) else None)
+        if nm and _QUANTITY_OR.match(nm):
+            out.append((n, f"quantity-or-default:{nm}", f"`{A.unparse(n)[:60]}` substitutes the fallback whenever `{A.unparse(l)}` is false: a legitimate zero value of {nm} "
+                        f"(the epoch, mode 0000, uid 0, revision 0) is replaced as if nothing had been given"))
+    return out
